@@ -955,6 +955,11 @@ fn panic_kind(msg: &str) -> u8 {
     }
 }
 
+thread_local! {
+    /// Some(ms): dispatches really wait up to ms (instead of a zero timeout) and an extra line "20 <elapsed ms>" is logged
+    static REAL_TIMEOUT: Cell<Option<u64>> = const { Cell::new(None) };
+}
+
 pub fn run_scenario(scen: Scenario) -> Vec<String> {
     let mut event_loop: EventLoop<'static, ()> = EventLoop::try_new().expect("event loop");
     let epfd = event_loop.as_raw_fd();
@@ -999,7 +1004,12 @@ pub fn run_scenario(scen: Scenario) -> Vec<String> {
                     let off = UNIT * (*t as u32) + UNIT / 2;
                     calloop::verif::set_clock_offset(off);
                     w.batch_seen.set(false);
-                    let r = event_loop.dispatch(Some(Duration::ZERO), &mut ());
+                    let real = REAL_TIMEOUT.with(|c| c.get());
+                    let t0 = Instant::now();
+                    let r = event_loop.dispatch(Some(real.map(Duration::from_millis).unwrap_or(Duration::ZERO)), &mut ());
+                    if real.is_some() {
+                        w.log(format!("20 {}", t0.elapsed().as_millis()));
+                    }
                     if !w.batch_seen.get() {
                         w.log("0".to_string()); // no poll happened: keep one ORDER line per dispatch command
                     }
@@ -1040,6 +1050,12 @@ pub fn run_scenario(scen: Scenario) -> Vec<String> {
         drop(w);
     }));
     trace
+}
+
+/// the same scenarios with dispatches that really wait (C14: a synthetic before_sleep event forces a non-blocking wait)
+pub fn run_timed(path: &str, ms: u64) {
+    REAL_TIMEOUT.with(|c| c.set(Some(ms)));
+    run(path);
 }
 
 pub fn run(path: &str) {
